@@ -164,8 +164,11 @@ func c15Selection(rng *rand.Rand, dir string, hostile bool) selection {
 			s.args = append(s.args, "-excludeNames", Inv[0].Name+",e_no_such_lint")
 			s.invalid = "unknown exclude name"
 		case 2:
-			s.args = append(s.args, "-includeSources", "NoSuchSource")
-			s.invalid = "unknown source"
+			// the library's own name for "no such source" is not a source either
+			sv := []string{"NoSuchSource", "Unknown", " Unknown ", "RFC5280,Unknown", "Unknown,RFC5280", "unknown", "rfc5280", "RFC5280;RFC5480"}[rng.Intn(8)]
+			flagName := []string{"-includeSources", "-excludeSources"}[rng.Intn(2)]
+			s.args = append(s.args, flagName, sv)
+			s.invalid = "unknown source " + strconv.Quote(sv) + " in " + flagName
 		case 3:
 			// no profile ships with the tree, so every value names an unknown profile - also values made of list
 			// separators and blanks only, which a list-minded parser might reduce to "nothing selected"
